@@ -7,6 +7,7 @@ import (
 	"fmt"
 	"math"
 	"sort"
+	"time"
 
 	"github.com/mandykoh/prism/cielab"
 	"github.com/mandykoh/prism/ciexyz"
@@ -152,6 +153,31 @@ func runC13(r *core.Run) {
 	nx, nl, nrand, nw := 64, 48, 1<<16, 1
 	if r.Thorough() {
 		nx, nl, nrand, nw = 256, 256, 100_000_000, 6
+	}
+	// the very first conversions of the process come from eight goroutines at once (a lazily built
+	// cube-root or power table must not be observable), in both directions
+	{
+		probe := [][3]float32{{0.2, 0.3, 0.4}, {0.9, 1, 0.8}, {0.004, 0.002, 0.006}, {1.5, 1.2, 0.1}, {0.05, 0.5, 0.95}, {0.0089, 0.0088, 0.0072}}
+		check := func(g int) {
+			for k := range probe {
+				in := probe[(k+g)%len(probe)]
+				for _, w := range [][3]float32{c13D50, c13D65} {
+					if kind, msg, _, _ := c13XYZ(in, w); kind != "" {
+						r.Violate("xyz", kind+"/first-use", msg+" (among the first calls of the process, eight goroutines at once)", c13Case{Kind: kind, White: w, In: in})
+					}
+					ref := refcolor.XYZToLab(v64(in), v64(w))
+					lab := [3]float32{float32(ref[0]), float32(ref[1]), float32(ref[2])}
+					if kind, msg, _ := c13Lab(lab, w); kind != "" {
+						r.Violate("lab", kind+"/first-use", msg+" (among the first calls of the process, eight goroutines at once)", c13Case{Kind: "inverse", White: w, In: lab})
+					}
+				}
+			}
+		}
+		firstUseAuto(r.Variant, 8, check)
+		r.AddEvals(8 * 6 * 4)
+		if isBurst(r.Variant) {
+			return
+		}
 	}
 	ws := c13Whites(r, nw)
 	var maxFwd, maxRT, maxInv float64
@@ -348,6 +374,32 @@ func runC13(r *core.Run) {
 		r.AddEvals(n)
 		r.NTCount(n)
 	}
+	// whites at other scales (Y = 100, 10.5, 0.01, 1000 ...): Lab depends on the ratios only, so the
+	// same ratios against a scaled white must give the same Lab, and the scaled white itself (100, 0, 0)
+	{
+		rg := core.NewRNG(r.Seed, "C13", "scaled-whites")
+		var n int64
+		for _, k := range []float32{100, 10.5, 11, 9.99, 50, 255, 1000, 65535, 0.1, 0.01, 1e-3} {
+			for _, base := range [][3]float32{c13D50, c13D65, {float32(rg.Uniform(0.5, 1.5)), 1, float32(rg.Uniform(0.5, 1.5))}} {
+				w := [3]float32{base[0] * k, base[1] * k, base[2] * k}
+				ratios := [][3]float32{{1, 1, 1}, {0.5, 0.5, 0.5}, {0.18, 0.18, 0.18}, {0.004, 0.002, 0.006}, {0.0089, 0.0088, 0.0072}, {0, 0, 0}, {1.2, 0.8, 0.3}}
+				for i := 0; i < 40; i++ {
+					ratios = append(ratios, [3]float32{float32(rg.Uniform(-0.2, 1.5)), float32(rg.Uniform(-0.2, 1.5)), float32(rg.Uniform(-0.2, 1.5))})
+				}
+				for _, q := range ratios {
+					in := [3]float32{q[0] * w[0], q[1] * w[1], q[2] * w[2]}
+					kind, msg, _, _ := c13XYZ(in, w)
+					n++
+					if kind != "" {
+						r.Violate("xyz", kind+"/scaled-white", msg, c13Case{Kind: kind, White: w, In: in})
+						break
+					}
+				}
+			}
+		}
+		r.AddEvals(n)
+		r.NTCount(n)
+	}
 	// the same colour against different whites back to back (a "last conversion" memo keyed on the
 	// colour alone shows only here)
 	{
@@ -403,6 +455,13 @@ func runC13(r *core.Run) {
 	for _, a := range accs {
 		maxFwd, maxRT = math.Max(maxFwd, a.f), math.Max(maxRT, a.rt)
 	}
+	if r.Variant == "" {
+		vs := append([]string{"warm@2"}, burstVariants...)
+		for _, v := range vs {
+			r.RunVariantChild(v, 5*time.Minute, false)
+		}
+		r.Obs("fresh_process_variants", vs)
+	}
 	r.Obs("max_forward_error_lab_units", maxFwd)
 	r.Obs("max_roundtrip_error_scaled", maxRT)
 	r.Obs("max_inverse_error_scaled", maxInv)
@@ -451,5 +510,5 @@ func replayC13(stage string, raw json.RawMessage) (bool, string, error) {
 }
 
 func init() {
-	core.Register(&core.Property{ID: "C13", Level: "exploration", Run: runC13, Replay: replayC13})
+	core.Register(&core.Property{ID: "C13", Level: "exploration", Run: runC13, Replay: replayC13, Child: variantChild("C13", "exploration", runC13)})
 }
